@@ -124,7 +124,12 @@ class LoadedDoc:
         seen = set()
         for n in self.nodes:
             try:
-                t = str(n) if is_container(n) else str(_ENV["Nodes"].typed_value(n))
+                if is_container(n):
+                    t = str(n)
+                elif type(n).__name__ == "ScalarBoolean":
+                    t = str(bool(n))          # searches.py converts an anchored boolean to a real bool
+                else:
+                    t = str(_ENV["Nodes"].typed_value(n))
             except Exception:  # noqa
                 continue
             if t not in seen:
